@@ -1,4 +1,4 @@
-CONSTANTS MaxPool = 4  MaxOps = 10  MaxNodes = 4  NameIds = {0, 1, 2}  Bug = "CaretGrandparent"  Emit = FALSE
+CONSTANTS MaxPool = 4  MaxOps = 10  MaxNodes = 4  NameIds = {0, 1, 2}  Bug = "CaretGrandparent"  AllowDetached = FALSE  Emit = FALSE
 INIT InitFind
 NEXT NextFind
 VIEW ViewFind
